@@ -35,6 +35,13 @@ package main
 // filled packets.  charged_ge_actual is also evaluated handle by handle right
 // after allocation (every bucket, reported or not) against the vendored encoder.
 //
+// Pool turnover stream: a few handles are allocated early, then more distinct
+// tag sets than the reporter's tag-slice pool holds (DefaultMaxQueueSize) are
+// allocated on the same reporter and never used, then late handles; early and
+// late handles are reported into closely filled packets.  The handle-by-handle
+// predicate measures with the tags the handle's pre-built metric holds after
+// ALL allocations and compares them with the tags it was allocated with.
+//
 // Fault stream: the loopback sink is closed and re-opened on the SAME port in
 // the middle of a history (ops -2 close, -3 re-open, -4 wait until the
 // reporter's consumer is idle).  A datagram sent to the closed port is lost and
@@ -97,6 +104,12 @@ type c12Case struct {
 	// the handles are allocated at the same time, one goroutine each (as subscopes create their
 	// metrics on first use), instead of one after the other
 	ConcAlloc bool `json:"concurrent_alloc,omitempty"`
+	// pool turnover: before handle number turnover_at is allocated, `turnover` further counters with
+	// distinct tag sets (eight tags with values of turnover_len bytes) are allocated on the same
+	// reporter and never used: a long allocation history that cycles the reporter's pools and caches
+	Turnover    int `json:"turnover,omitempty"`
+	TurnoverAt  int `json:"turnover_at,omitempty"`
+	TurnoverLen int `json:"turnover_len,omitempty"`
 }
 
 // ---------------------------------------------------------------- real reporter, opened and inspected
@@ -112,6 +125,7 @@ type c12Handle struct {
 	kind    int
 	size    int32
 	buckets []c12Bucket
+	tags    []string // the handle's own tags as its pre-built metric holds them after all allocations (sorted pairs)
 }
 
 // one row of the table of metrics as they go on the wire (a handle, or one bucket of a histogram)
@@ -283,21 +297,55 @@ func c12Open(c *c12Case, addr string, maxpkt int32) (rep *c12Rep, err error) {
 		close(start)
 		wg.Wait()
 	} else {
+		turnover := func() {
+			pad := strings.Repeat("x", c.TurnoverLen)
+			for i := 0; i < c.Turnover; i++ {
+				t := make(map[string]string, 8)
+				for k := 0; k < 8; k++ {
+					t[fmt.Sprintf("tk%d", k)] = fmt.Sprintf("%06d.%d%s", i, k, pad)
+				}
+				r.AllocateCounter("turnover", t)
+			}
+		}
 		for i := range c.Allocs {
+			if i == c.TurnoverAt && c.Turnover > 0 {
+				turnover()
+			}
 			hs[i] = alloc(i)
+		}
+		if c.TurnoverAt >= len(c.Allocs) && c.Turnover > 0 {
+			turnover()
 		}
 	}
 	for i := range c.Allocs {
 		a := &c.Allocs[i]
 		h := c12Handle{kind: a.Kind, h: hs[i]}
 		v := reflect.ValueOf(h.h)
+		var tv reflect.Value
 		switch a.Kind {
 		case 1, 2, 3:
 			h.size = int32(v.FieldByName("size").Int())
+			tv = v.FieldByName("metric").FieldByName("Tags")
 		case 4:
 			h.buckets = c12ReadBuckets(v.FieldByName("cachedValueBuckets"))
+			tv = v.FieldByName("cachedValueBuckets")
 		default:
 			h.buckets = c12ReadBuckets(v.FieldByName("cachedDurationBuckets"))
+			tv = v.FieldByName("cachedDurationBuckets")
+		}
+		if a.Kind >= 4 {
+			if tv.Len() > 0 {
+				tv = tv.Index(0).FieldByName("metric").Elem().FieldByName("metric").FieldByName("Tags")
+			} else {
+				tv = reflect.Value{}
+			}
+		}
+		if tv.IsValid() {
+			var pairs []string
+			for j := 0; j < tv.Len(); j++ {
+				pairs = append(pairs, tv.Index(j).FieldByName("Name").String(), tv.Index(j).FieldByName("Value").String())
+			}
+			h.tags = c12SortPairs(pairs)
 		}
 		rep.handles = append(rep.handles, h)
 	}
@@ -564,9 +612,18 @@ func c12Run(c *c12Case, restricted, final bool) (res c12Result) {
 		now := time.Now().UnixNano()
 		for hi := range rep.handles {
 			a, h := &c.Allocs[hi], &rep.handles[hi]
+			// the tags are those the handle's pre-built metric holds NOW (after every allocation of
+			// the case): they are what a report through the handle puts on the wire
 			m := m3thrift.Metric{Name: string(a.Name), Timestamp: now}
-			for k, v := range tagsOf(a.Tags) {
-				m.Tags = append(m.Tags, m3thrift.MetricTag{Name: k, Value: v})
+			for j := 0; j+1 < len(h.tags); j += 2 {
+				m.Tags = append(m.Tags, m3thrift.MetricTag{Name: h.tags[j], Value: h.tags[j+1]})
+			}
+			moved := ""
+			if want := c12SortedPairs(tagsOf(a.Tags)); !c12StrsEq(want, h.tags) {
+				moved = fmt.Sprintf("; it was allocated with tags %+.120q and now holds %+.160q", want, h.tags)
+				if c.Turnover > 0 {
+					moved += fmt.Sprintf(" (%d counters with other tag sets were allocated on the reporter after handle %d)", c.Turnover, c.TurnoverAt-1)
+				}
 			}
 			switch a.Kind {
 			case 2:
@@ -589,7 +646,9 @@ func c12Run(c *c12Case, restricted, final bool) (res c12Result) {
 					if same != "" {
 						same = "; same name and tag set as" + same + ", allocated in index order"
 					}
-					fail("charged_ge_actual", "handle %d (kind %d, name %+.40q, %d tags) was charged %d bytes; a report of the largest value through it now occupies %d%s", hi, a.Kind, a.Name, len(a.Tags), h.size, l, same)
+					fail("charged_ge_actual", "handle %d (kind %d, name %+.40q, %d tags) was charged %d bytes; a report of the largest value through it now occupies %d%s", hi, a.Kind, a.Name, len(a.Tags), h.size, l, same+moved)
+				} else if moved != "" {
+					fail("no_drop_no_dup", "handle %d (kind %d, name %+.40q): a report through it is sent with other tags than it was allocated with%s", hi, a.Kind, a.Name, moved)
 				}
 				continue
 			}
@@ -604,9 +663,12 @@ func c12Run(c *c12Case, restricted, final bool) (res c12Result) {
 					if c.ConcAlloc {
 						how = "at the same time, one goroutine each"
 					}
-					fail("charged_ge_actual", "histogram handle %d (name %+.40q, %d tags; the %d handles of the case were allocated %s): bucket %d (%s=%s %s=%s) was charged %d bytes; a report of the largest sample count through it now occupies %d",
-						hi, a.Name, len(a.Tags), len(rep.handles), how, bi, rep.idname, b.id, rep.bname, b.name, b.size, l)
+					fail("charged_ge_actual", "histogram handle %d (name %+.40q, %d tags; the %d handles of the case were allocated %s): bucket %d (%s=%s %s=%s) was charged %d bytes; a report of the largest sample count through it now occupies %d%s",
+						hi, a.Name, len(a.Tags), len(rep.handles), how, bi, rep.idname, b.id, rep.bname, b.name, b.size, l, moved)
 				}
+			}
+			if moved != "" {
+				fail("no_drop_no_dup", "histogram handle %d (name %+.40q): its buckets are sent with other tags than it was allocated with%s", hi, a.Name, moved)
 			}
 		}
 	}
@@ -1320,6 +1382,62 @@ func c12GenConc(r *Rng, i int, thorough bool) c12Case {
 	return c
 }
 
+// ---------------------------------------------------------------- pool turnover
+
+// c12GenTurnover: a long allocation history.  A few handles are allocated early; then more
+// distinct tag sets than the reporter's tag-slice pool holds (its size is DefaultMaxQueueSize,
+// m3/resource_pool.go) are allocated on the same reporter; then a few late handles; then the early
+// and the late handles are reported into closely filled packets.  The property quantifies over
+// "all sequences of reported metrics ... every name and tag set": what a handle is charged and
+// sends must not depend on how many other metrics the process allocated in between.
+func c12GenTurnover(r *Rng, i int) c12Case {
+	c := c12Case{Proto: i % 2, Service: c12Str(r, 1+r.Intn(6)), Env: c12Str(r, 1+r.Intn(6))}
+	handle := func(minTags int) c12Alloc {
+		a := c12Alloc{Kind: 1 + r.Intn(5), Name: c12Str(r, 3+r.Intn(20))}
+		nt := minTags + r.Intn(8-minTags+1)
+		if nt > 0 {
+			a.Tags = map[B]B{}
+		}
+		for j := 0; j < nt; j++ {
+			a.Tags[B(fmt.Sprintf("k%d", j))+c12Str(r, r.Intn(6))] = c12Str(r, 1+r.Intn(10))
+		}
+		if a.Kind == 4 {
+			a.Buckets = []int64{fbits(0), fbits(1), fbits(10)}
+		} else if a.Kind == 5 {
+			a.Buckets = []int64{0, int64(time.Millisecond), int64(time.Second)}
+		}
+		return a
+	}
+	for k := 2 + r.Intn(3); k > 0; k-- {
+		c.Allocs = append(c.Allocs, handle(1))
+	}
+	c.Allocs = append(c.Allocs, handle(0))
+	c.TurnoverAt = len(c.Allocs)
+	c.Turnover = m3.DefaultMaxQueueSize + 8 + r.Intn(300)
+	c.TurnoverLen = 20 + r.Intn(40)
+	for k := 1 + r.Intn(2); k > 0; k-- {
+		c.Allocs = append(c.Allocs, handle(0))
+	}
+	na := len(c.Allocs)
+	for k := 40 + r.Intn(80); k > 0; k-- {
+		h := r.Intn(na)
+		v := c12Ints[r.Intn(len(c12Ints))]
+		if c.Allocs[h].Kind == 2 {
+			v = fbits(r.F64())
+		}
+		c.Ops = append(c.Ops, c12Op{H: h, B: r.Intn(4), V: v})
+		if r.Chance(3) {
+			c.Ops = append(c.Ops, c12Op{H: -1})
+		}
+	}
+	if r.Bool() {
+		c.MaxPkt = 1440
+	} else {
+		c.FitJ, c.FitDelta = 4+r.Intn(12), r.Intn(2)
+	}
+	return c
+}
+
 // ---------------------------------------------------------------- fault stream
 
 // c12GenFault: rounds of reports (every value unique), most of them ended by Flush(), the sink
@@ -1448,7 +1566,7 @@ var c12Witnesses = []c12Case{
 func init() {
 	props["C12"] = func(ctx *Ctx) {
 		ctx.Header("M3BatchCorr")
-		ctx.Res.Rule = "case = (protocol, common tags, bucket tag names, handles of all kinds with names 1..600 bytes and 0..8 tags, a history of reports with values at the encoding extremes and Flush() calls, MaxPacketSizeBytes absolute or fitted to the charges of the first j reports +-1) run on a real m3 reporter over loopback UDP; plus a stream in which the handles (histograms with tag sets of very different size) are allocated at the same time from one goroutine each, plus a fault stream in which the loopback sink is closed and re-opened on the same port between rounds of reports (failed sends, then normal traffic); non-trivial = at least one datagram; distinct by case hash"
+		ctx.Res.Rule = "case = (protocol, common tags, bucket tag names, handles of all kinds with names 1..600 bytes and 0..8 tags, a history of reports with values at the encoding extremes and Flush() calls, MaxPacketSizeBytes absolute or fitted to the charges of the first j reports +-1) run on a real m3 reporter over loopback UDP; plus a stream in which the handles (histograms with tag sets of very different size) are allocated at the same time from one goroutine each, plus a pool-turnover stream (more distinct tag sets than the tag-slice pool holds allocated between early and late handles), plus a fault stream in which the loopback sink is closed and re-opened on the same port between rounds of reports (failed sends, then normal traffic); non-trivial = at least one datagram; distinct by case hash"
 		retried, lost := 0, 0
 		exact, dgrams, atMax := 0, 0, 0
 		faults, faultsSeen, faultDelivered, faultEmpty := 0, 0, 0, 0
@@ -1481,6 +1599,9 @@ func init() {
 			}
 			if c.ConcAlloc {
 				cls += "/concurrent-alloc"
+			}
+			if c.Turnover > 0 {
+				cls += "/pool-turnover"
 			}
 			if res.Fault {
 				cls = proto + "/fault"
@@ -1598,6 +1719,14 @@ func init() {
 			crng := ctx.R.Fork()
 			for i, nc := 0, ctx.N(24, 300); i < nc; i++ {
 				c := c12GenConc(crng, i, ctx.Thorough())
+				one(&c, false, false)
+			}
+		}
+		// pool turnover stream
+		if !restricted {
+			trng := ctx.R.Fork()
+			for i, nt := 0, ctx.N(4, 40); i < nt; i++ {
+				c := c12GenTurnover(trng, i)
 				one(&c, false, false)
 			}
 		}
